@@ -174,7 +174,7 @@ def inputs_for(pid, tier, seed):
     ins += base
     # rule interactions: every pattern wrapped once more in every constructor (sampled in the quick tier)
     for t in (rnd.sample(pats, 1500) if quick else pats):
-        for w in (rnd.sample(ws, 2) if quick else rnd.sample(ws, 8)):
+        for w in (rnd.sample(ws, 2) if quick else rnd.sample(ws, 3)):
             ins.append(w(t))
     ins += gen.chains(12 if quick else 20)
     ins += special_inputs()
